@@ -47,8 +47,8 @@ ASSUMPTIONS = [
     "the sat-mode precondition of get-value is enforced by the reference solver, not by the Coq spec; generated histories query values only after a sat answer",
     "Int verdicts are relative to the range -4..4 for free symbols",
 ]
-RULE = ("histories: (a) Coq refutation witnesses, (b) user-legal histories over a 13-call alphabet: all up to length 2 + a sample of length 3 (thorough: all up to length 4), "
-        "(c) random histories in the proved fragment (one-level push/pop, no reset, value queries last), (d) random histories with one hazard class each "
+RULE = ("histories: (a) the Coq refutation witness and the witnesses of the clauses repaired by fixes C17 a-d (regression), (b) user-legal histories over a 13-call alphabet: all up to length 2 + a sample of length 3 (thorough: all up to length 4), "
+        "(c) random histories with one-level push/pop, no reset, value queries last, (d) random histories stressing one repaired clause each "
         "(value queries anywhere / get_model at any depth / push,pop with n in 0..3 / reset_assertions / value query on an unasserted symbol), (e) factory one-shot shortcuts; "
         "distinct = distinct (history, formulas) inputs")
 
@@ -502,6 +502,8 @@ def enumerated_histories(maxlen):
 
 
 X, Y = ("var", "b0"), ("var", "b1")
+# histories that refuted clauses before the fixes C17 a-d (kept as regression corpus: they must be
+# clean now), followed by the witness of the clause that is still refuted
 WITNESSES = [
     ("sync_witness", [("add", X), ("solve",), ("get_value", X), ("solve",)]),
     ("pop2_witness", [("push", 1), ("add", X), ("push", 1), ("pop", 2), ("add", X)]),
@@ -1275,9 +1277,9 @@ def run(tier):
                          "implementation_commands": [e["cmd"] for e in res[i]["log"]], "raised": res[i]["exc"]})
         what += corr_bad[:2]
         chk.violation({"kind": "obligation", "theorem_or_correspondence": what}, found_input=False)
-    # the witnesses of the _refuted theorems must reproduce on the implementation
+    # the witness of the remaining _refuted theorem must reproduce on the implementation
     for k, (name, h) in enumerate(WITNESSES):
-        if k in res and not oracle(h, res[k]):
+        if name == "value_witness" and k in res and not oracle(h, res[k]):
             chk.note("NOTE: Coq witness %s does not fail on the implementation any more (fixed?)" % name)
     return chk.finish(TRUSTED, ASSUMPTIONS, RULE)
 
